@@ -78,6 +78,9 @@ func genC17Collect(g *Gen) *Scn {
 	if sc.Sub == "ToMap" {
 		sc.SetInt("m", g.Range(1, 4))
 	}
+	if sc.Sub != "Collect" && g.Bool(0.5) {
+		sc.SetInt("resub", 1)
+	}
 	return sc
 }
 
@@ -423,69 +426,95 @@ func runC17Collect(e *Env) {
 		return
 	}
 
-	// ToSlice / ToMap: exactly one value, emitted at completion; nothing but the error on error
-	var events func() []c17Ev
-	var trace func() string
-	want := ""
+	// ToSlice / ToMap: exactly one value, emitted at completion; nothing but the error on error.
+	// The bridge observable is built once; with Ints[resub] it is subscribed a second time, the source
+	// then delivering other values: every subscription accumulates from scratch.
+	var oSlice ro.Observable[[]int]
+	var oMap ro.Observable[map[int]int]
+	m := sc.Int("m", 1)
 	switch sc.Sub {
 	case "ToSlice":
-		rec := &c17Rec[[]int]{e: e, name: "o", render: func(v []int) string {
-			if v == nil {
-				return "nil"
-			}
-			return fmt.Sprint(v)
-		}}
-		c17Subscribe(e, ro.ToSlice[int]()(tapped), rec.Observer())
-		events, trace = func() []c17Ev { return rec.Events }, rec.Trace
+		oSlice = ro.ToSlice[int]()(tapped)
 	case "ToMap":
-		m := sc.Int("m", 1)
-		rec := &c17Rec[map[int]int]{e: e, name: "o", render: func(v map[int]int) string {
-			if v == nil {
-				return "nil"
+		oMap = ro.ToMap(func(v int) (int, int) { return v % m, v })(tapped)
+	}
+	rounds := 1 + sc.Int("resub", 0)
+	if rounds > 1 {
+		shifted := make([]Step, len(spec.Script))
+		for i, st := range spec.Script {
+			shifted[i] = st
+			if st.K == "N" {
+				shifted[i].V = st.V + 101
 			}
-			return c17RenderMap(v)
-		}}
-		c17Subscribe(e, ro.ToMap(func(v int) (int, int) { return v % m, v })(tapped), rec.Observer())
-		events, trace = func() []c17Ev { return rec.Events }, rec.Trace
-	}
-	e.SettleFor(settle)
-	c17Quiesce(e)
-	if e.K.Capped() {
-		return
-	}
-	if sc.Sub == "ToSlice" {
-		want = fmt.Sprint(append([]int{}, seen.Vals...))
-	} else {
-		m := sc.Int("m", 1)
-		mm := map[int]int{}
-		for _, v := range seen.Vals {
-			mm[v%m] = v // last write wins
 		}
-		want = c17RenderMap(mm)
+		src.Attempts = [][]Step{spec.Script, shifted}
 	}
-	evs := events()
-	describe := fmt.Sprintf("%s over %s script %s: the stream delivered %v terminal=%q err=%v; the bridge emitted [%s]", sc.Sub, spec.Mode, traceN(scriptToN(spec.Script)), seen.Vals, string(rune(seen.Term)), seen.Err, trace())
-	switch seen.Term {
-	case 0:
-		if len(evs) != 0 {
-			e.Violate("C17", "emitted-before-completion", "the source has not terminated but the bridge emitted: "+describe)
+	for round := 0; round < rounds; round++ {
+		if round > 0 {
+			*seen = c17Seen{}
 		}
-	case 'E':
-		if len(evs) != 1 || evs[0].K != 'E' {
-			e.Violate("C17", "on-error", "on a source error the bridge must emit nothing except the error: "+describe)
-		} else if evs[0].Err != seen.Err {
-			e.Violate("C17", "wrong-error", "the bridge's error is not the source's error: "+describe)
+		var events func() []c17Ev
+		var trace func() string
+		want := ""
+		switch sc.Sub {
+		case "ToSlice":
+			rec := &c17Rec[[]int]{e: e, name: fmt.Sprintf("o%d", round), render: func(v []int) string {
+				if v == nil {
+					return "nil"
+				}
+				return fmt.Sprint(v)
+			}}
+			c17Subscribe(e, oSlice, rec.Observer())
+			events, trace = func() []c17Ev { return rec.Events }, rec.Trace
+		case "ToMap":
+			rec := &c17Rec[map[int]int]{e: e, name: fmt.Sprintf("o%d", round), render: func(v map[int]int) string {
+				if v == nil {
+					return "nil"
+				}
+				return c17RenderMap(v)
+			}}
+			c17Subscribe(e, oMap, rec.Observer())
+			events, trace = func() []c17Ev { return rec.Events }, rec.Trace
 		}
-	case 'C':
-		if len(evs) != 2 || evs[0].K != 'N' || evs[1].K != 'C' {
-			e.Violate("C17", "not-once", "on completion the bridge must emit exactly one value and then complete: "+describe)
+		e.SettleFor(settle)
+		c17Quiesce(e)
+		if e.K.Capped() {
 			return
 		}
-		if evs[0].Enter < seen.TermStep {
-			e.Violate("C17", "emitted-before-completion", fmt.Sprintf("the value was emitted at step %d, before the source completed (step %d): %s", evs[0].Enter, seen.TermStep, describe))
+		if sc.Sub == "ToSlice" {
+			want = fmt.Sprint(append([]int{}, seen.Vals...))
+		} else {
+			mm := map[int]int{}
+			for _, v := range seen.Vals {
+				mm[v%m] = v // last write wins
+			}
+			want = c17RenderMap(mm)
 		}
-		if evs[0].Snap != want {
-			e.Violate("C17", "wrong-content", fmt.Sprintf("emitted %s, expected %s (precisely the delivered values, last write wins per key): %s", evs[0].Snap, want, describe))
+		evs := events()
+		describe := fmt.Sprintf("%s over %s script %s (subscription #%d of the same observable): the stream delivered %v terminal=%q err=%v; the bridge emitted [%s]", sc.Sub, spec.Mode, traceN(scriptToN(src.scriptFor(round))), round+1, seen.Vals, string(rune(seen.Term)), seen.Err, trace())
+		switch seen.Term {
+		case 0:
+			if len(evs) != 0 {
+				e.Violate("C17", "emitted-before-completion", "the source has not terminated but the bridge emitted: "+describe)
+			}
+			return // the source never ends: a second subscription would only add a second silent one
+		case 'E':
+			if len(evs) != 1 || evs[0].K != 'E' {
+				e.Violate("C17", "on-error", "on a source error the bridge must emit nothing except the error: "+describe)
+			} else if evs[0].Err != seen.Err {
+				e.Violate("C17", "wrong-error", "the bridge's error is not the source's error: "+describe)
+			}
+		case 'C':
+			if len(evs) != 2 || evs[0].K != 'N' || evs[1].K != 'C' {
+				e.Violate("C17", "not-once", "on completion the bridge must emit exactly one value and then complete: "+describe)
+				return
+			}
+			if evs[0].Enter < seen.TermStep {
+				e.Violate("C17", "emitted-before-completion", fmt.Sprintf("the value was emitted at step %d, before the source completed (step %d): %s", evs[0].Enter, seen.TermStep, describe))
+			}
+			if evs[0].Snap != want {
+				e.Violate("C17", "wrong-content", fmt.Sprintf("emitted %s, expected %s (precisely the delivered values, last write wins per key): %s", evs[0].Snap, want, describe))
+			}
 		}
 	}
 }
